@@ -104,3 +104,42 @@ Definition calculate_synergy (strict : bool) (arity : nat) (sids : list Z) (tids
     if all_same_length idss
     then Ok (map (fun r => fst (fst r)) out, idss, map snd out)
     else Err E_VALUE.
+
+(* ---- vocabulary of the source translations (harness/src_functions.py C20_*; Generated/SrcSynergy.v) ----
+   The meaning of ONE numpy / library call each.  Arrays: a 1-d integer array is [list Z], a 2-d one the list of its
+   rows (shape[1] is passed explicitly), bool arrays likewise, a float array is [list Qc] (exact values). *)
+Definition q_one : Qc := 1.                                   (* the literal 1.0 *)
+(* a == v / a != v, elementwise against a scalar *)
+Definition np_eq1 (a : list Z) (v : Z) : list bool := map (fun x => (x =? v)%Z) a.
+Definition np_ne1 (a : list Z) (v : Z) : list bool := map (fun x => negb (x =? v)%Z) a.
+Definition np_eq2 (a : list (list Z)) (v : Z) : list (list bool) := map (fun r => np_eq1 r v) a.
+(* np.sum(m, axis=1) of a 2-d bool array: the number of True per row *)
+Definition np_sum_rows (m : list (list bool)) : list Z := map (fun r => Z.of_nat (length (filter (fun b => b) r))) m.
+(* ~m *)
+Definition np_not (m : list bool) : list bool := map negb m.
+(* a & b on bool arrays of one length; unequal lengths (numpy: broadcast of a length-1 operand, else ValueError) are
+   refused - the links prove the operands have one length wherever the source applies `&` *)
+Definition np_and (a b : list bool) : result (list bool) :=
+  if Nat.eqb (length a) (length b) then Ok (map (fun p => fst p && snd p) (combine a b)) else Err E_VALUE.
+(* a[m] / a[m, :] with m a boolean mask over the first axis: IndexError unless the mask has the array's length *)
+Definition np_select {A} (m : list bool) (a : list A) : result (list A) :=
+  if Nat.eqb (length m) (length a) then Ok (select m a) else Err E_INDEX.
+(* np.sort(a, axis=1) *)
+Fixpoint zins (x : Z) (l : list Z) : list Z :=
+  match l with [] => [x] | y :: r => if (x <=? y)%Z then x :: l else y :: zins x r end.
+Definition zsort (l : list Z) : list Z := fold_right zins [] l.
+Definition np_sort_rows (a : list (list Z)) : list (list Z) := map zsort a.
+(* a[:, -1] on an (n x ncols) array: IndexError when there is no column *)
+Definition np_last_col (ncols : nat) (a : list (list Z)) : result (list Z) :=
+  if Nat.eqb ncols 0 then Err E_INDEX else Ok (map (fun r => last r CONTROL) a).
+(* np.any(m) *)
+Definition np_any (m : list bool) : bool := existsb (fun b => b) m.
+(* np.mean(x) of a 1-d float array: NaN (Err E_NAN) when it is empty *)
+Definition np_mean (x : list Qc) : result Qc := match x with [] => Err E_NAN | _ => Ok (qmean x) end.
+(* zip(a, b, c) / zip(a, b): stops at the shortest *)
+Definition zip3 {A B C} (a : list A) (b : list B) (c : list C) : list (A * B * C) := combine (combine a b) c.
+(* np.array(list of 1-d integer arrays): ValueError unless they have one length (inhomogeneous shape) *)
+Definition np_array_rows (l : list (list Z)) : result (list (list Z)) :=
+  if all_same_length l then Ok l else Err E_VALUE.
+(* np.ones_like(a, dtype=float) on a 2-d array *)
+Definition np_ones_like (a : list (list Z)) : list (list Qc) := map (map (fun _ => q_one)) a.
